@@ -20,7 +20,7 @@ TIME_BUDGET = {"quick": 300, "thorough": 1800}
 FLOORS = {"quick": {"pairs": 800, "steps_compared": 3000, "bytes_compared": 1000000, "pairs_with_exception": 150, "tcp_pairs": 2, "distinct": 500},
           "thorough": {"pairs": 15000, "steps_compared": 60000, "pairs_with_exception": 3000, "tcp_pairs": 8}}
 
-PERTS = ["none", "none", "fault", "stall", "cap", "corrupt", "auth", "disconnected", "eofstall", "syncfail", "large", "slowlink", "longpath", "closefault", "slowpush", "reconnect", "dirs"]
+PERTS = ["none", "none", "fault", "stall", "cap", "corrupt", "auth", "disconnected", "eofstall", "syncfail", "large", "slowlink", "longpath", "closefault", "slowpush", "reconnect", "dirs", "baddest"]
 
 
 def gen_cases(tier, seed):
@@ -82,6 +82,10 @@ def one_side(impl, case, sc, pert):
             sim.auth = simdev.AuthPlan(require=True, verify=(lambda tok, sig: accept not in (None, "pub") and sig == keys[accept].Sign(tok)),
                                        accept_pubkey=(accept == "pub"), bad_challenge_at=rng.choice([None, None, 0, 1]), strays=rng.choice([[], [("OKAY", 3, 4, b"")]]))
             ckw = {"rsa_keys": keys or None, "auth_timeout_s": 0.5, "read_timeout_s": 1.0, "transport_timeout_s": 1.0}
+            if accept == "pub" and rng.random() < 0.6:
+                # the user confirms the key later than read_timeout_s, but within the (longer, or unlimited) time the caller allows for that
+                sim.auth.pubkey_delay = rng.choice([1.5, 3.0])
+                ckw["auth_timeout_s"] = rng.choice([5.0, 10.0, None])
         if pert == "closefault":
             nclose = [0, rng.choice([1, 1, 2])]
 
@@ -529,6 +533,11 @@ def run_case(case):
         sc["steps"] = [{"op": rng.choice(["push", "push", "pull"]), "path": "/rc%d" % i, "size": rng.choice([100, 9000, 70000, 140000]), "seed": case["seed"] + str(i), "src": "bytesio", "rec": "64k",
                         "split": "whole", "dest": "bytesio", "mode": 0o100644, "mtime": 4, "cb": rng.choice([None, "ok"])} for i in range(rng.randint(2, 4))]
         sc["dims"]["noise"] = []
+    if pert == "baddest":
+        # a pull whose local destination cannot be opened (missing directory / is a directory), in the middle of other operations
+        bad = {"op": "pull", "path": "/bd", "size": rng.choice([10, 5000]), "seed": case["seed"], "rec": "64k", "split": "whole", "dest": rng.choice(["missingdir", "isdir"]), "cb": rng.choice([None, "ok"])}
+        sc["steps"] = sc["steps"][:2] + [bad] + sc["steps"][2:4] + [dict(bad, dest="bytesio", path="/bd2")]
+        pert = "none"
     if pert == "dirs":
         sc = scen.gen_scenario(rng, nsteps=rng.randint(1, 5), fails=True, dirs=True, hist=True)
         for st in sc["steps"]:
